@@ -53,8 +53,16 @@ Definition item_fp (mode : nat) (it : item) : Z :=
       let mem := match d_kind d with
                  | DkStruct | DkPyClass | DkGoType => Z.of_nat (d_members d)
                  | _ => 0%Z end in
-      mix (mix (mix (hs (kind_tag (d_kind d))) (hs (d_name d))) u) mem
+      let nm := match d_ns d with NsMember o => (o ++ "." ++ d_name d)%string | _ => d_name d end in
+      mix (mix (mix (hs (kind_tag (d_kind d))) (hs nm)) u) mem
   end.
+
+(* fingerprint of the attribute names of the classes / structs of a file, definition by definition *)
+Definition names_fp (l : list string) : Z := fold_left (fun acc x => mix acc (hs x)) l 11%Z.
+Definition py_attrs_fp (s : schema) (i : nat) : list Z :=
+  flat_map (fun fd => match fd_def fd with
+                      | DMsg _ _ _ _ | DEnum _ _ _ => [names_fp (py_class_attrs fd)]
+                      | _ => [] end) (flat_file (getf s i)).
 
 (* index of the first mismatch + 1 (0 = equal) *)
 Fixpoint first_mismatch (a b : list Z) (k : nat) : nat :=
